@@ -13,6 +13,61 @@ func (c *verifCounter) Inc() { c.n++ }
 
 func init() {
 	verifHarnesses["HarnessC07Hist"] = HarnessC07Hist
+	verifHarnesses["HarnessC07Metrics"] = HarnessC07Metrics
+}
+
+// HarnessC07Metrics: every subset of the four counters configured (the others left nil), a
+// cache that keeps everything or nothing, every history of 1..3 operations over two keys:
+// no panic, and each configured counter counts exactly its events.
+func HarnessC07Metrics() {
+	var hit, miss, get, put verifCounter
+	m := &CacheMetrics{}
+	hasHit, hasMiss, hasGet, hasPut := verifBool("hit-counter"), verifBool("miss-counter"), verifBool("get-counter"), verifBool("put-counter")
+	if hasHit {
+		m.CacheHit = &hit
+	}
+	if hasMiss {
+		m.CacheMiss = &miss
+	}
+	if hasGet {
+		m.GetCall = &get
+	}
+	if hasPut {
+		m.PutCall = &put
+	}
+	keepAll := verifBool("keeps-everything")
+	capacity := uint64(0)
+	if keepAll {
+		capacity = ^uint64(0)
+	}
+	c := NewLRUCache(capacity, WithCacheMetrics(m))
+	keys := [2]uint64{7, 1 << 40}
+	var stored [2]bool
+	wantGet, wantPut, wantHit, wantMiss := 0, 0, 0, 0
+	n := 1 + verifChoice("nops", 3)
+	for t := 0; t < n; t++ {
+		k := verifChoice("keyidx", 2)
+		if verifBool("isPut") {
+			c.Put(keys[k], verifBitmap(uint64(3+t)))
+			wantPut++
+			stored[k] = keepAll
+		} else {
+			_, ok := c.Get(keys[k])
+			wantGet++
+			verifAssert(ok == stored[k], "C07: a Get on a cache with partly configured counters hits or misses wrongly")
+			if stored[k] {
+				wantHit++
+			} else {
+				wantMiss++
+			}
+		}
+	}
+	verifAssert(!hasGet || get.n == wantGet, "C07(6): the get counter (configured alone or with others) counts the Get calls exactly")
+	verifAssert(!hasPut || put.n == wantPut, "C07(6): the put counter (configured alone or with others) counts the Put calls exactly")
+	verifAssert(!hasHit || hit.n == wantHit, "C07(6): the hit counter (configured alone or with others) counts the hits exactly")
+	verifAssert(!hasMiss || miss.n == wantMiss, "C07(6): the miss counter (configured alone or with others) counts the misses exactly")
+	verifAssert(hasGet || get.n == 0, "C07(6): a counter that was not configured was used")
+	verifReach("end")
 }
 
 func HarnessC07Hist() {
